@@ -425,3 +425,45 @@ func init() {
 	})
 	libFrames["(*net/url.URL).EscapedPath"] = map[string]Sort{}
 }
+
+func init() {
+	regModel("(*net/url.URL).Query", func(x *Exec, fr *Frame, st *State, a []Value, pos token.Pos, rt types.Type) (Value, bool) {
+		// parses RawQuery into a new, non-nil map (ParseQuery never returns nil)
+		x.oblige(fr, st, "nil", "url.Query", "Query on nil *url.URL", pos, Neq(tOf(a[0]), IntLit(0)), nil)
+		ref := x.newRef(fr)
+		x.havocKeyAt(st, ref)
+		return VTerm{ref}, true
+	})
+	libFrames["(*net/url.URL).Query"] = map[string]Sort{}
+	regModel("(net/url.Values).Get", func(x *Exec, fr *Frame, st *State, a []Value, pos token.Pos, rt types.Type) (Value, bool) {
+		// the first value of the key, "" if there is none (no key canonicalisation)
+		m, k := tOf(a[0]), tOf(a[1])
+		ms := x.hdrShape()
+		v := x.mapGetVal(st, ms, m, k).(VSlice)
+		first := Select(Select(x.heapGet(st, "elems|Str", arrOf(arrOf(SStr))), v.Back.Ref), v.Off)
+		t := x.vc.Name(Ite(And(Neq(m, IntLit(0)), Select(x.mapDom(st, ms, m), k), Gt(v.Len, IntLit(0))), first, Term{"sEmpty", SStr}), "vget")
+		x.vc.strFacts(t)
+		return VTerm{t}, true
+	})
+	libFrames["(net/url.Values).Get"] = map[string]Sort{}
+}
+
+// havocKeyAt: the contents of a freshly produced map[string][]string object are unknown.
+func (x *Exec) havocKeyAt(st *State, ref Term) {
+	for _, k := range sortedKeys(hdrKeys()) {
+		if k == "elems|Str" {
+			continue
+		}
+		srt := hdrKeys()[k]
+		h := x.heapGet(st, k, srt)
+		var fresh Term
+		switch srt {
+		case arrOf(SInt):
+			fresh = x.vc.Fresh("q.len", SInt)
+			x.vc.Assert(Ge(fresh, IntLit(0)))
+		default:
+			fresh = x.vc.Fresh("q.comp", elemSort(srt))
+		}
+		x.heapSet(st, k, Store(h, ref, fresh))
+	}
+}
